@@ -103,19 +103,24 @@ func runC18(c *Ctx) {
 	specT := p.TypeObj("pkg/apis/scheduling/v2alpha2", "PodGroupSpec")
 	for _, fld := range []string{"MarkUnschedulable", "SchedulingBackoff", "Queue"} {
 		var stores []ssa.Instruction
-		for _, in := range instrsIn(ignore, func(in ssa.Instruction) bool {
+		ok := false
+		hits := p.deepFind(ignore, func(in ssa.Instruction) bool {
 			st, ok := in.(*ssa.Store)
 			if !ok {
 				return false
 			}
 			fa, ok := st.Addr.(*ssa.FieldAddr)
-			return ok && fieldOfAddr(fa).Name() == fld && specT != nil && namedOf(fa.X.Type()) != nil && namedOf(fa.X.Type()).Obj() == specT
-		}) {
-			stores = append(stores, in)
-		}
-		ok := len(stores) > 0
-		for _, st := range stores {
-			if rootParam(termOf(st.(*ssa.Store).Val)) != 1 {
+			if !ok || fieldOfAddr(fa).Name() != fld || specT == nil {
+				return false
+			}
+			n := namedOf(fa.X.Type())
+			return n != nil && n.Obj() == specT
+		}, 2)
+		ok = len(hits) > 0
+		for _, h := range hits {
+			stores = append(stores, h.In)
+			// the value comes from the STORED object (the first parameter of ignoreFields), also through a helper
+			if rootParam(liftTerm(termOf(h.In.(*ssa.Store).Val), h.Chain)) != 1 {
 				ok = false
 			}
 		}
@@ -134,15 +139,16 @@ func runC18(c *Ctx) {
 	}
 	// labels: node-pool and queue label follow the stored object whenever it has them — no condition on the computed value
 	nLabel := 0
-	for _, in := range instrsIn(ignore, func(in ssa.Instruction) bool { _, ok := in.(*ssa.MapUpdate); return ok }) {
+	for _, h := range p.deepFind(ignore, func(in ssa.Instruction) bool { _, ok := in.(*ssa.MapUpdate); return ok }, 2) {
+		in := h.In
 		mu := in.(*ssa.MapUpdate)
-		key := termOf(mu.Key).String()
+		key := liftTerm(termOf(mu.Key), h.Chain).String()
 		if !strings.Contains(key, "Key") {
 			continue
 		}
 		nLabel++
-		fs := fx.FactsAt(in)
-		fromOld := rootParam(termOf(mu.Value)) == 1
+		fs := fx.factsAtDeep(h)
+		fromOld := rootParam(liftTerm(termOf(mu.Value), h.Chain)) == 1
 		_, condOnNew := hasFact(fs, func(f Fact) bool {
 			// a fact about a label VALUE of the computed object (lookup in the copy's labels)
 			return f.T.contains(func(x *Term) bool {
